@@ -778,7 +778,7 @@ Proof.
   { constructor; cbn [put buf stale].
     - apply bytes_ok_app; split; [exact I1|apply bytes_ok_take; exact OKc].
     - rewrite len_app, len_take by lia. lia.
-    - rewrite len_app, len_take, len_drop by (try rewrite len_take; lia). rewrite len_take by lia. lia. }
+    - rewrite len_app. rewrite (len_take n chunk) by lia. rewrite len_drop by lia. lia. }
   pose proof (sync_inv _ IP) as SI. destruct (sync FIXED (put s (take n chunk))) as [s1 o1]. destruct SI as (S1 & S2 & S3).
   destruct ((0 <? len (drop n chunk)) && negb (halted s1)); [|auto].
   specialize (IH s1 (drop n chunk) S1 (bytes_ok_drop n chunk OKc)).
@@ -813,7 +813,7 @@ Proof. intros; unfold len, zeros. rewrite repeat_length. lia. Qed.
 
 Theorem C16_safe_thm : forall evs, Forall ev_ok evs -> Forall out_ok (run FIXED evs).
 Proof.
-  intros evs OK. unfold run. destruct evs as [|e r]; [constructor|]. destruct e; try constructor.
+  intros evs OK. unfold run. destruct evs as [|e r]; [constructor|]. destruct e as [n|c| |pid sz|]; [|constructor..].
   inversion OK; subst. unfold boot.
   assert (I0 : inv {| buf := []; stale := zeros RECVBUF;
                mq := [{| ect := CT_CONNECT; epid := 0; esz := n; esent := false; eacked := false |}]; halted := false |}).
@@ -821,4 +821,440 @@ Proof.
   pose proof (sync_inv _ I0) as SI. destruct (sync FIXED _) as [s1 o1]. destruct SI as (S1 & S2 & _).
   pose proof (run_from_inv r s1 S1 ltac:(assumption)) as RI. destruct (run_from FIXED s1 r) as [s2 o2]. destruct RI.
   cbn [snd]. apply Forall_app. split; [constructor; [exact I|exact S2]|assumption].
+Qed.
+
+(* ------------------------------------------------------------------------------------------ *)
+(* MQTT 3.1.1 encodings against the unpacker *)
+Lemma range_forall (P : Z -> bool) (n : nat) :
+  forallb P (map Z.of_nat (seq 0 n)) = true -> forall z, 0 <= z < Z.of_nat n -> P z = true.
+Proof.
+  intros H z Hz. rewrite forallb_forall in H. apply H. apply in_map_iff. exists (Z.to_nat z). split; [lia|].
+  apply in_seq. lia.
+Qed.
+
+Definition req_flags (ct : Z) : Z := if ct =? 6 then 2 else 0.
+Definition spec_rule (ct fl : Z) : Z :=
+  if (ct =? 0) || (ct =? 15) then E_CONTROL_FORBIDDEN_TYPE
+  else if (ct =? 3) || (ct =? 8) || (ct =? 10) then (if (ct =? 3) || (fl =? 2) then 0 else E_CONTROL_INVALID_FLAGS)
+  else if fl =? req_flags ct then 0 else E_CONTROL_INVALID_FLAGS.
+Lemma rule_table ct fl : 0 <= ct < 16 -> 0 <= fl < 16 -> rule_violation ct fl = spec_rule ct fl.
+Proof.
+  intros Hc Hf.
+  assert (T : forallb (fun c => forallb (fun f => rule_violation c f =? spec_rule c f) (map Z.of_nat (seq 0 16))) (map Z.of_nat (seq 0 16)) = true)
+    by (vm_compute; reflexivity).
+  pose proof (range_forall _ 16 T ct Hc) as T1. cbv beta in T1.
+  pose proof (range_forall _ 16 T1 fl Hf) as T2. cbv beta in T2. apply Z.eqb_eq in T2. exact T2.
+Qed.
+
+Lemma nthz_0 a l : nthz (a :: l) 0 = a. Proof. reflexivity. Qed.
+Lemma nthz_S a l i : 0 < i -> nthz (a :: l) i = nthz l (i - 1).
+Proof. intros H. unfold nthz. replace (Z.to_nat i) with (S (Z.to_nat (i - 1))) by lia. reflexivity. Qed.
+
+Lemma b0_div ct fl : 0 <= fl < 16 -> (ct * 16 + fl) / 16 = ct /\ (ct * 16 + fl) mod 16 = fl.
+Proof.
+  intros H. split.
+  - rewrite Z.add_comm, Z.div_add by lia. rewrite Z.div_small by lia. lia.
+  - rewrite Z.add_comm, Z.mod_add by lia. apply Z.mod_small; lia.
+Qed.
+
+Lemma unpack_header_enc ct fl L tail : 0 <= fl < 16 -> 0 <= L < 16384 ->
+  unpack_header ((ct * 16 + fl) :: enc_rl L ++ tail) = hfin ct fl L (1 + len (enc_rl L)).
+Proof.
+  intros Hf HL. destruct (b0_div ct fl Hf) as [D M]. unfold unpack_header, enc_rl.
+  pose proof (len_nonneg tail) as LT.
+  destruct (L <? 128) eqn:E1.
+  - apply Z.ltb_lt in E1. change ([L] ++ tail) with (L :: tail). change (len [L]) with 1. rewrite !len_cons.
+    replace (1 + (1 + len tail) =? 0) with false by (symmetry; apply Z.eqb_neq; lia).
+    replace (1 + (1 + len tail) <=? 1) with false by (symmetry; apply Z.leb_gt; lia).
+    rewrite nthz_0, (nthz_S _ _ 1) by lia. cbn [Z.sub]. rewrite nthz_0, D, M.
+    replace (L <? 128) with true by (symmetry; apply Z.ltb_lt; lia). reflexivity.
+  - apply Z.ltb_ge in E1. replace (L <? 16384) with true by (symmetry; apply Z.ltb_lt; lia).
+    change ([128 + L mod 128; L / 128] ++ tail) with ((128 + L mod 128) :: (L / 128) :: tail). change (len [128 + L mod 128; L / 128]) with 2. rewrite !len_cons.
+    replace (1 + (1 + (1 + len tail)) =? 0) with false by (symmetry; apply Z.eqb_neq; lia).
+    replace (1 + (1 + (1 + len tail)) <=? 1) with false by (symmetry; apply Z.leb_gt; lia).
+    replace (1 + (1 + (1 + len tail)) <=? 2) with false by (symmetry; apply Z.leb_gt; lia).
+    rewrite nthz_0, (nthz_S _ _ 1), (nthz_S _ _ 2), (nthz_S _ _ (2 - 1)) by lia. cbn [Z.sub Z.pos_sub Z.succ_double Z.pred_double Z.double]. rewrite !nthz_0, D, M.
+    assert (M1 : 0 <= L mod 128 < 128) by (apply Z.mod_pos_bound; lia).
+    assert (D1 : 1 <= L / 128 < 128) by (split; [apply Z.div_le_lower_bound; lia|apply Z.div_lt_upper_bound; lia]).
+    replace (128 + L mod 128 <? 128) with false by (symmetry; apply Z.ltb_ge; lia).
+    replace (L / 128 <? 128) with true by (symmetry; apply Z.ltb_lt; lia).
+    assert (MM : (128 + L mod 128) mod 128 = L mod 128).
+    { replace (128 + L mod 128) with (L mod 128 + 1 * 128) by lia. rewrite Z.mod_add by lia. apply Z.mod_small; lia. }
+    rewrite MM.
+    rewrite (Z.mod_small (L / 128) 128) by lia.
+    replace (L mod 128 + 128 * (L / 128)) with L by (pose proof (Z.div_mod L 128 ltac:(lia)); lia).
+    reflexivity.
+Qed.
+
+Lemma nthz_app_r (a b : list Z) i : 0 <= i -> nthz (a ++ b) (len a + i) = nthz b i.
+Proof.
+  intros H. unfold nthz, len. rewrite app_nth2 by lia. f_equal. lia.
+Qed.
+Lemma be16_at (a z : list Z) x y : be16 (a ++ x :: y :: z) (len a) = 256 * x + y.
+Proof.
+  unfold be16. replace (len a) with (len a + 0) at 1 by lia. replace (len a + 1) with (len a + 1) by lia.
+  rewrite !nthz_app_r by lia. reflexivity.
+Qed.
+Lemma slice_at (a m z : list Z) : slice (a ++ m ++ z) (len a) (len m) = m.
+Proof.
+  pose proof (len_nonneg a); pose proof (len_nonneg m); pose proof (len_nonneg z).
+  rewrite slice_inside by (rewrite ?len_app; lia). rewrite drop_app_exact. apply take_app_exact.
+Qed.
+Lemma enc16_be n : 0 <= n < 65536 -> 256 * (n / 256) + n mod 256 = n.
+Proof. intros. pose proof (Z.div_mod n 256 ltac:(lia)). lia. Qed.
+Lemma len_enc_rl L : 0 <= L < 16384 -> len (enc_rl L) = if L <? 128 then 1 else 2.
+Proof. intros H. unfold enc_rl. destruct (L <? 128); [reflexivity|]. replace (L <? 16384) with true by (symmetry; apply Z.ltb_lt; lia). reflexivity. Qed.
+
+Record wf_publish (dup qos retain pid : Z) (topic payload : list Z) : Prop := {
+  wf_dup : 0 <= dup <= 1; wf_qos : 0 <= qos <= 2; wf_retain : 0 <= retain <= 1; wf_pid : 0 <= pid < 65536;
+  wf_topic : len topic < 65536;
+  wf_fits : len (enc_publish dup qos retain pid topic payload) <= RECVBUF }.
+
+Definition pub_toff (qos : Z) (topic payload : list Z) : Z :=
+  let L := 2 + len topic + (if 0 <? qos then 2 else 0) + len payload in 1 + (if L <? 128 then 1 else 2) + 2.
+
+Lemma unpack_enc_publish dup qos retain pid topic payload rest :
+  wf_publish dup qos retain pid topic payload ->
+  let b := enc_publish dup qos retain pid topic payload ++ rest in
+  let toff := pub_toff qos topic payload in
+  let poff := toff + len topic + (if 0 <? qos then 2 else 0) in
+  unpack FIXED b = UOk (RPublish dup qos retain toff (len topic) poff (len payload) (if 0 <? qos then pid else 0))
+                       (len (enc_publish dup qos retain pid topic payload)) /\
+  slice b toff (len topic) = topic /\ slice b poff (len payload) = payload /\
+  poff + len payload = len (enc_publish dup qos retain pid topic payload).
+Proof.
+  intros [Wd Wq Wr Wp Wt Wf]. pose proof consts_ok as CF. pose proof (cf_recvbuf_hi CF) as RH.
+  pose proof (len_nonneg topic) as LT; pose proof (len_nonneg payload) as LP; pose proof (len_nonneg rest) as LR.
+  unfold pub_toff. cbv zeta. unfold enc_publish in *.
+  set (pidb := if 0 <? qos then enc16 pid else []) in *.
+  assert (Lpid : len pidb = if 0 <? qos then 2 else 0) by (unfold pidb; destruct (0 <? qos); reflexivity).
+  set (body := enc16 (len topic) ++ topic ++ pidb ++ payload) in *.
+  assert (LB : len body = 2 + len topic + (if 0 <? qos then 2 else 0) + len payload).
+  { unfold body. rewrite !len_app, Lpid. change (len (enc16 (len topic))) with 2. lia. }
+  set (L := len body) in *.
+  set (fl := dup * 8 + qos * 2 + retain).
+  assert (Hfl : 0 <= fl < 16) by (unfold fl; lia).
+  assert (F : (fl / 8) mod 2 = dup /\ (fl / 2) mod 4 = qos /\ fl mod 2 = retain).
+  { unfold fl. assert (D : dup = 0 \/ dup = 1) by lia. assert (Q : qos = 0 \/ qos = 1 \/ qos = 2) by lia.
+    assert (R : retain = 0 \/ retain = 1) by lia.
+    destruct D as [-> | ->], Q as [-> | [-> | ->]], R as [-> | ->]; repeat split; reflexivity. }
+  destruct F as (F1 & F2 & F3).
+  replace (CT_PUBLISH * 16 + dup * 8 + qos * 2 + retain) with (3 * 16 + fl) in * by (unfold fl; destruct (cf_ct CF) as (_ & _ & -> & _); lia).
+  change ([3 * 16 + fl] ++ enc_rl L ++ body) with ((3 * 16 + fl) :: (enc_rl L ++ body)) in *.
+  rewrite len_cons, len_app in Wf.
+  assert (HL : 0 <= L < 16384) by (pose proof (len_nonneg (enc_rl L)); pose proof (len_nonneg body); unfold L in *; lia).
+  assert (K : (if 0 <? qos then 2 else 0) = 0 \/ (if 0 <? qos then 2 else 0) = 2) by (destruct (0 <? qos); auto).
+  rewrite len_enc_rl in * by assumption.
+  set (hl := if L <? 128 then 1 else 2) in *.
+  assert (Hhl : 1 <= hl <= 2) by (unfold hl; destruct (L <? 128); lia).
+  set (pre := (3 * 16 + fl) :: enc_rl L).
+  assert (Lpre : len pre = 1 + hl) by (unfold pre; rewrite len_cons, len_enc_rl by assumption; reflexivity).
+  assert (SH : ((3 * 16 + fl) :: (enc_rl L ++ body)) ++ rest = pre ++ body ++ rest)
+    by (unfold pre; rewrite <- !app_comm_cons, <- app_assoc; reflexivity).
+  assert (LEN : len (((3 * 16 + fl) :: (enc_rl L ++ body)) ++ rest) = 1 + hl + L + len rest)
+    by (rewrite SH, !len_app, Lpre; fold L; lia).
+  (* slices *)
+  assert (S1 : slice (pre ++ body ++ rest) (1 + hl + 2) (len topic) = topic).
+  { unfold body. rewrite <- !app_assoc. rewrite (app_assoc pre). replace (1 + hl + 2) with (len (pre ++ enc16 (len topic))) by (rewrite len_app, Lpre; reflexivity).
+    apply slice_at. }
+  assert (S2 : slice (pre ++ body ++ rest) (1 + hl + 2 + len topic + (if 0 <? qos then 2 else 0)) (len payload) = payload).
+  { unfold body. rewrite <- !app_assoc. rewrite (app_assoc pre), (app_assoc (pre ++ _)), (app_assoc ((pre ++ _) ++ _)).
+    replace (1 + hl + 2 + len topic + (if 0 <? qos then 2 else 0)) with (len (((pre ++ enc16 (len topic)) ++ topic) ++ pidb))
+      by (rewrite !len_app, Lpre, Lpid; change (len (enc16 (len topic))) with 2; lia).
+    apply slice_at. }
+  assert (B1 : be16 (pre ++ body ++ rest) (1 + hl) = len topic).
+  { unfold body, enc16. rewrite <- Lpre. rewrite <- !app_assoc. cbn [app]. rewrite be16_at. apply enc16_be. lia. }
+  assert (B2 : 0 < qos -> be16 (pre ++ body ++ rest) (1 + hl + 2 + len topic) = pid).
+  { intros Q. unfold body, pidb. replace (0 <? qos) with true by (symmetry; apply Z.ltb_lt; lia).
+    rewrite <- !app_assoc. rewrite (app_assoc pre), (app_assoc (pre ++ _)).
+    replace (1 + hl + 2 + len topic) with (len ((pre ++ enc16 (len topic)) ++ topic))
+      by (rewrite !len_app, Lpre; change (len (enc16 (len topic))) with 2; lia).
+    unfold enc16 at 2. cbn [app]. rewrite be16_at. apply enc16_be. lia. }
+  rewrite len_cons, len_app, len_enc_rl by assumption. fold L. rewrite <- LB. fold hl.
+  split; [|split; [rewrite SH; exact S1|split; [rewrite SH; exact S2|lia]]].
+  unfold unpack. cbn [app]. rewrite <- app_assoc. rewrite unpack_header_enc by assumption.
+  unfold hfin. rewrite (cf_rule_publish CF). change (0 =? 0) with true. cbv iota. rewrite len_enc_rl by assumption. fold hl.
+  change ((3 * 16 + fl) :: enc_rl L ++ body ++ rest) with (pre ++ body ++ rest).
+  replace (len (pre ++ body ++ rest)) with (1 + hl + L + len rest) by (rewrite !len_app, Lpre; fold L; lia).
+  replace (1 + hl + L + len rest - (1 + hl) <? L) with false by (symmetry; apply Z.ltb_ge; lia).
+  replace (RECVBUF <? 1 + hl + L) with false by (symmetry; apply Z.ltb_ge; lia). cbn [orb].
+  change (3 =? CT_CONNACK) with false. change (3 =? CT_PUBLISH) with true. cbv iota.
+  rewrite unpack_publish_fixed. cbv zeta. rewrite F1, F2, F3, B1.
+  replace (qos =? 3) with false by (symmetry; apply Z.eqb_neq; lia).
+  replace (L <? 2) with false by (symmetry; apply Z.ltb_ge; lia).
+  destruct (0 <? qos) eqn:Q0.
+  - apply Z.ltb_lt in Q0. rewrite (B2 Q0).
+    replace (L <? len topic + 4) with false by (symmetry; apply Z.ltb_ge; lia).
+    rewrite u32_small by lia. f_equal; [f_equal; lia|lia].
+  - replace (L <? len topic + 2) with false by (symmetry; apply Z.ltb_ge; lia).
+    rewrite u32_small by lia. f_equal; [f_equal; lia|lia].
+Qed.
+
+(* ------------------------------------------------------------------------------------------ *)
+(* exact delivery *)
+Definition ack_entry (qos pid : Z) : list entry :=
+  if qos =? 1 then [new_entry CT_PUBACK pid 4] else if qos =? 2 then [new_entry CT_PUBREC pid 4] else [].
+(* the queue accepts the acknowledgement without compaction, and a QoS 2 id is not a retransmission *)
+Definition accepts (q : list entry) (qos pid : Z) : Prop :=
+  (0 < qos -> 4 <= currsz q) /\ (qos = 2 -> existsb (matches CT_PUBREC (Some pid)) q = false).
+
+Lemma handle_publish q dup qos retain toff tlen poff plen pid : 0 <= qos <= 2 -> accepts q qos pid ->
+  handle (RPublish dup qos retain toff tlen poff plen (if 0 <? qos then pid else 0)) q = (q ++ ack_entry qos pid, true, None, false).
+Proof.
+  intros Q [A1 A2]. cbn [handle]. unfold ack_entry.
+  destruct (qos =? 1) eqn:Q1.
+  - apply Z.eqb_eq in Q1. subst. cbn [Z.ltb Z.compare]. rewrite try_pack_fits by (apply A1; lia). reflexivity.
+  - destruct (qos =? 2) eqn:Q2.
+    + apply Z.eqb_eq in Q2. subst. cbn [Z.ltb Z.compare]. rewrite (A2 eq_refl), try_pack_fits by (apply A1; lia). reflexivity.
+    + rewrite app_nil_r. reflexivity.
+Qed.
+
+Lemma parse_empty q : parse_stream q [] = {| d_q := q; d_rest := []; d_moved := []; d_out := []; d_stop := Wait; d_tight := false |}.
+Proof.
+  unfold parse_stream. rewrite drain_S. change (unpack FIXED []) with UInc.
+  pose proof (cf_recvbuf_lo consts_ok). replace (RECVBUF <=? len []) with false by (symmetry; apply Z.leb_gt; rewrite len_nil; lia).
+  reflexivity.
+Qed.
+
+(* a well-formed PUBLISH at the head of a stream is delivered, acknowledged in the queue, and parsing goes on *)
+Theorem C16_exact_delivery_stream_thm : forall q dup qos retain pid topic payload rest,
+  wf_publish dup qos retain pid topic payload -> bytes_ok rest -> accepts q qos pid ->
+  let toff := pub_toff qos topic payload in
+  let poff := toff + len topic + (if 0 <? qos then 2 else 0) in
+  let d := parse_stream q (enc_publish dup qos retain pid topic payload ++ rest) in
+  let d' := parse_stream (q ++ ack_entry qos pid) rest in
+  rx_of (d_out d) = RxMsg dup qos retain toff (len topic) poff (len payload) (topic ++ payload) :: rx_of (d_out d') /\
+  d_q d = d_q d' /\ d_rest d = d_rest d' /\ d_stop d = d_stop d' /\ d_tight d = d_tight d'.
+Proof.
+  intros q dup qos retain pid topic payload rest W OKr AC. cbv zeta.
+  destruct (unpack_enc_publish dup qos retain pid topic payload rest W) as (U & S1 & S2 & TOT).
+  set (enc := enc_publish dup qos retain pid topic payload) in *.
+  unfold parse_stream. rewrite drain_S, U, (handle_publish q) by (destruct W; assumption). cbv zeta.
+  pose proof (len_nonneg rest) as LR. pose proof (len_nonneg enc) as LE.
+  replace (len (enc ++ rest) <? len enc) with false by (symmetry; apply Z.ltb_ge; rewrite len_app; lia).
+  rewrite drop_app_exact.
+  rewrite (drain_fuel (length (enc ++ rest)) (S (length rest)) (q ++ ack_entry qos pid) rest OKr) by
+    (rewrite ?app_length; unfold enc, enc_publish; cbn [app length]; lia).
+  cbn [d_q d_rest d_out d_stop d_tight msg_of app rx_of orb]. rewrite S1, S2. auto.
+Qed.
+
+Theorem C16_exact_delivery_thm : forall s segs dup qos retain pid topic payload,
+  ready s -> buf s = [] -> Forall bytes_ok segs ->
+  wf_publish dup qos retain pid topic payload -> accepts (mq s) qos pid ->
+  concat segs = enc_publish dup qos retain pid topic payload ->
+  let toff := pub_toff qos topic payload in
+  let poff := toff + len topic + (if 0 <? qos then 2 else 0) in
+  let r := run_from FIXED s (map Seg segs) in
+  rx_of (snd r) = [RxMsg dup qos retain toff (len topic) poff (len payload) (topic ++ payload)] /\
+  ready (fst r) /\ buf (fst r) = [] /\ qeq (mq (fst r)) (mq s ++ ack_entry qos pid).
+Proof.
+  intros s segs dup qos retain pid topic payload R B OK W AC CC. cbv zeta.
+  pose proof (C16_refines_thm segs s (mq s) R OK (qeq_refl _)) as RF. cbv zeta in RF. rewrite B, CC in RF. cbn [app] in RF.
+  pose proof (C16_exact_delivery_stream_thm (mq s) dup qos retain pid topic payload [] W ltac:(constructor) AC) as ED.
+  cbv zeta in ED. rewrite app_nil_r, parse_empty in ED. cbn [d_q d_rest d_out d_stop d_tight rx_of] in ED.
+  destruct ED as (E1 & E2 & E3 & E4 & E5). specialize (RF E5). destruct RF as (F1 & F2 & F3 & F4).
+  rewrite E1, E4 in F1. rewrite E2 in F2. destruct (F3 E4) as [F5 F6]. rewrite E3 in F6. auto.
+Qed.
+
+(* ------------------------------------------------------------------------------------------ *)
+(* malformed packets *)
+(* MQTT 3.1.1 server-to-client packets: what is malformed about a complete packet with control type ct,
+   flags fl and variable header + payload `body` (reserved type, type a server never sends, wrong flags,
+   QoS 3, impossible lengths) *)
+Definition malformedb (ct fl : Z) (body : list Z) : bool :=
+  let L := len body in let qos := (fl / 2) mod 4 in
+  if (ct =? 0) || (ct =? 15) then true
+  else if ct =? 3 then (qos =? 3) || (L <? 2) || (L <? be16 body 0 + (if 0 <? qos then 4 else 2))
+  else if (ct =? 1) || (ct =? 8) || (ct =? 10) || (ct =? 12) || (ct =? 14) then true
+  else negb (fl =? req_flags ct) || (if ct =? 9 then L <? 3 else if ct =? 13 then negb (L =? 0) else negb (L =? 2)).
+
+Ltac plit p := lazymatch p with xH => idtac | xO ?q => plit q | xI ?q => plit q end.
+Ltac lit x := lazymatch x with Z0 => idtac | Zpos ?p => plit p | Zneg ?p => plit p end.
+Ltac eval_eqb :=
+  repeat match goal with
+  | |- context [?a =? ?b] => lit a; lit b;
+      let v := eval vm_compute in (a =? b) in change (a =? b) with v
+  end.
+Ltac eval_eqb_in H :=
+  repeat match type of H with
+  | context [?a =? ?b] => lit a; lit b;
+      let v := eval vm_compute in (a =? b) in change (a =? b) with v in H
+  end.
+Ltac unfold_ct := unfold CT_CONNECT, CT_CONNACK, CT_PUBLISH, CT_PUBACK, CT_PUBREC, CT_PUBREL, CT_PUBCOMP, CT_SUBSCRIBE,
+  CT_SUBACK, CT_UNSUBSCRIBE, CT_UNSUBACK, CT_PINGREQ, CT_PINGRESP, CT_DISCONNECT.
+
+Ltac crunch := repeat first [ progress eval_eqb | progress cbv beta iota | progress cbn [orb andb negb]
+  | match goal with C : (_ <? _) = false |- _ => rewrite C end ].
+Ltac solve_mal M :=
+  crunch;
+  first [ solve [eexists; reflexivity]
+        | match goal with |- context [?x =? ?k] =>
+            let E := fresh "E" in destruct (x =? k) eqn:E; rewrite ?E in M; cbn [negb orb andb] in M; try discriminate M; solve_mal M end
+        | match goal with |- context [?x <? ?k] =>
+            let E := fresh "E" in destruct (x <? k) eqn:E; rewrite ?E in M; cbn [negb orb andb] in M; try discriminate M; solve_mal M end ].
+
+Lemma be16_app_r (a b : list Z) o : 0 <= o -> be16 (a ++ b) (len a + o) = be16 b o.
+Proof. intros. unfold be16. rewrite <- Z.add_assoc, !nthz_app_r by lia. reflexivity. Qed.
+
+Lemma unpack_malformed ct fl body rest : 0 <= ct < 16 -> 0 <= fl < 16 -> bytes_ok body ->
+  1 + len (enc_rl (len body)) + len body <= RECVBUF -> malformedb ct fl body = true ->
+  exists e, unpack FIXED ((ct * 16 + fl) :: enc_rl (len body) ++ body ++ rest) = UErr e.
+Proof.
+  intros Hc Hf OK FIT M. pose proof consts_ok as CF. pose proof (cf_recvbuf_hi CF) as RH.
+  pose proof (len_nonneg body) as LB; pose proof (len_nonneg rest) as LR. pose proof (len_nonneg (enc_rl (len body))) as LE.
+  set (L := len body) in *. assert (HL : 0 <= L < 16384) by lia.
+  unfold unpack. rewrite unpack_header_enc by assumption. unfold hfin. rewrite rule_table by assumption.
+  set (pre := (ct * 16 + fl) :: enc_rl L).
+  change ((ct * 16 + fl) :: enc_rl L ++ body ++ rest) with (pre ++ body ++ rest).
+  assert (Lpre : len pre = 1 + len (enc_rl L)) by (unfold pre; rewrite len_cons; reflexivity).
+  rewrite <- Lpre.
+  assert (C1 : (len (pre ++ body ++ rest) - len pre <? L) = false) by (apply Z.ltb_ge; rewrite !len_app; fold L; lia).
+  assert (C2 : (RECVBUF <? len pre + L) = false) by (apply Z.ltb_ge; lia).
+  assert (B0 : be16 (pre ++ body ++ rest) (len pre) = be16 (body ++ rest) 0)
+    by (replace (len pre) with (len pre + 0) at 1 by lia; apply be16_app_r; lia).
+  assert (B1 : 2 <= L -> be16 (body ++ rest) 0 = be16 body 0) by (intros; apply be16_app_l; fold L; lia).
+  unfold malformedb in M. fold L in M. unfold spec_rule, req_flags in *.
+  unfold_ct.
+  destruct (Z.eq_dec ct 3) as [C3|C3].
+  { (* PUBLISH *)
+    subst ct. crunch. eval_eqb_in M. cbn [orb andb negb] in M.
+    rewrite unpack_publish_fixed. cbv zeta. rewrite B0.
+    destruct ((fl / 2) mod 4 =? 3); [eexists; reflexivity|]. cbn [orb] in M.
+    destruct (L <? 2) eqn:L2; [eexists; reflexivity|]. apply Z.ltb_ge in L2. cbn [orb] in M.
+    rewrite (B1 L2), M. eexists; reflexivity. }
+  assert (C : ct = 0 \/ ct = 1 \/ ct = 2 \/ ct = 4 \/ ct = 5 \/ ct = 6 \/ ct = 7 \/ ct = 8 \/ ct = 9 \/ ct = 10 \/
+              ct = 11 \/ ct = 12 \/ ct = 13 \/ ct = 14 \/ ct = 15) by lia.
+  repeat (destruct C as [C | C]); subst ct; eval_eqb_in M; cbn [orb andb negb] in M; solve_mal M.
+Qed.
+
+Theorem C16_malformed_errors_stream_thm : forall q ct fl body rest,
+  0 <= ct < 16 -> 0 <= fl < 16 -> bytes_ok body ->
+  1 + len (enc_rl (len body)) + len body <= RECVBUF -> malformedb ct fl body = true ->
+  let d := parse_stream q ((ct * 16 + fl) :: enc_rl (len body) ++ body ++ rest) in
+  d_out d = [] /\ (exists e, d_stop d = Failed e) /\ d_q d = q /\ d_tight d = false.
+Proof.
+  intros q ct fl body rest Hc Hf OK FIT M. cbv zeta.
+  destruct (unpack_malformed ct fl body rest Hc Hf OK FIT M) as [e U].
+  unfold parse_stream. rewrite drain_S, U. cbn. eauto.
+Qed.
+
+(* a length field of more than four bytes *)
+Theorem C16_long_length_thm : forall q b0 x1 x2 x3 x4 rest,
+  128 <= x1 -> 128 <= x2 -> 128 <= x3 -> 128 <= x4 ->
+  let d := parse_stream q (b0 :: x1 :: x2 :: x3 :: x4 :: rest) in
+  d_out d = [] /\ d_stop d = Failed E_INVALID_REMAINING_LENGTH /\ d_q d = q.
+Proof.
+  intros q b0 x1 x2 x3 x4 rest H1 H2 H3 H4. cbv zeta. unfold parse_stream. rewrite drain_S.
+  assert (U : unpack FIXED (b0 :: x1 :: x2 :: x3 :: x4 :: rest) = UErr E_INVALID_REMAINING_LENGTH).
+  { unfold unpack, unpack_header. rewrite !len_cons. pose proof (len_nonneg rest).
+    replace (1 + (1 + (1 + (1 + (1 + len rest)))) =? 0) with false by (symmetry; apply Z.eqb_neq; lia).
+    replace (1 + (1 + (1 + (1 + (1 + len rest)))) <=? 1) with false by (symmetry; apply Z.leb_gt; lia).
+    replace (1 + (1 + (1 + (1 + (1 + len rest)))) <=? 2) with false by (symmetry; apply Z.leb_gt; lia).
+    replace (1 + (1 + (1 + (1 + (1 + len rest)))) <=? 3) with false by (symmetry; apply Z.leb_gt; lia).
+    replace (1 + (1 + (1 + (1 + (1 + len rest)))) <=? 4) with false by (symmetry; apply Z.leb_gt; lia).
+    change (nthz (b0 :: x1 :: x2 :: x3 :: x4 :: rest) 1) with x1. change (nthz (b0 :: x1 :: x2 :: x3 :: x4 :: rest) 2) with x2.
+    change (nthz (b0 :: x1 :: x2 :: x3 :: x4 :: rest) 3) with x3. change (nthz (b0 :: x1 :: x2 :: x3 :: x4 :: rest) 4) with x4.
+    replace (x1 <? 128) with false by (symmetry; apply Z.ltb_ge; lia). replace (x2 <? 128) with false by (symmetry; apply Z.ltb_ge; lia).
+    replace (x3 <? 128) with false by (symmetry; apply Z.ltb_ge; lia). replace (x4 <? 128) with false by (symmetry; apply Z.ltb_ge; lia).
+    reflexivity. }
+  rewrite U. cbn. auto.
+Qed.
+
+(* acknowledgement of something never sent *)
+Lemma ack_first_none p q : existsb p q = false -> ack_first p q = None.
+Proof.
+  induction q as [|e q IH]; [reflexivity|]. cbn [existsb ack_first]. intros H. apply orb_false_l' in H. destruct H as [-> H].
+  rewrite (IH H). reflexivity.
+Qed.
+Definition outstanding (q : list entry) (r : resp) : bool :=
+  match r with
+  | RConnack _ => existsb (matches CT_CONNECT None) q
+  | RPubxxx ct pid =>
+      if ct =? CT_PUBACK then existsb (matches CT_PUBLISH (Some pid)) q
+      else if ct =? CT_PUBREC then existsb (matches CT_PUBREL (Some pid)) q || existsb (matches CT_PUBLISH (Some pid)) q
+      else if ct =? CT_PUBREL then existsb (matches CT_PUBREC (Some pid)) q
+      else existsb (matches CT_PUBREL (Some pid)) q
+  | RSuback pid _ => existsb (matches CT_SUBSCRIBE (Some pid)) q
+  | RUnsuback pid => existsb (matches CT_UNSUBSCRIBE (Some pid)) q
+  | RPingresp => existsb (matches CT_PINGREQ None) q
+  | RPublish _ _ _ _ _ _ _ _ => true
+  end.
+Theorem C16_unknown_ack_thm : forall q r, outstanding q r = false -> handle r q = (q, false, Some E_ACK_OF_UNKNOWN, false).
+Proof.
+  intros q r H. destruct r as [code|dup qos retain toff tlen poff plen pid|ct pid|pid code0|pid|]; cbn [outstanding handle] in *.
+  - rewrite (ack_first_none _ _ H). reflexivity.
+  - discriminate.
+  - destruct (ct =? CT_PUBACK); [rewrite (ack_first_none _ _ H); reflexivity|].
+    destruct (ct =? CT_PUBREC).
+    { apply orb_false_l' in H. destruct H as [H1 H2]. rewrite H1, (ack_first_none _ _ H2). reflexivity. }
+    destruct (ct =? CT_PUBREL); rewrite (ack_first_none _ _ H); reflexivity.
+  - rewrite (ack_first_none _ _ H). reflexivity.
+  - rewrite (ack_first_none _ _ H). reflexivity.
+  - rewrite (ack_first_none _ _ H). reflexivity.
+Qed.
+
+(* malformed packet at a packet boundary, any segmentation: protocol error + reconnect, no callback *)
+Theorem C16_malformed_errors_thm : forall s segs ct fl body rest,
+  ready s -> buf s = [] -> Forall bytes_ok segs ->
+  0 <= ct < 16 -> 0 <= fl < 16 -> bytes_ok body ->
+  1 + len (enc_rl (len body)) + len body <= RECVBUF -> malformedb ct fl body = true ->
+  concat segs = (ct * 16 + fl) :: enc_rl (len body) ++ body ++ rest ->
+  let r := run_from FIXED s (map Seg segs) in
+  (exists e, rx_of (snd r) = [RxErr e; RxReconnect]) /\ halted (fst r) = true.
+Proof.
+  intros s segs ct fl body rest R B OK Hc Hf OKb FIT M CC. cbv zeta.
+  pose proof (C16_refines_thm segs s (mq s) R OK (qeq_refl _)) as RF. cbv zeta in RF. rewrite B, CC in RF. cbn [app] in RF.
+  pose proof (C16_malformed_errors_stream_thm (mq s) ct fl body rest Hc Hf OKb FIT M) as ME. cbv zeta in ME.
+  destruct ME as (E1 & [e E2] & E3 & E4). specialize (RF E4). destruct RF as (F1 & F2 & F3 & F4).
+  rewrite E1, E2 in F1. cbn [rx_of rx_of_stop app] in F1. split; [eauto|]. apply F4. rewrite E2. discriminate.
+Qed.
+
+(* ------------------------------------------------------------------------------------------ *)
+(* the unrepaired code: witnesses (each replayed on the real code, see corpus/C16) *)
+Definition OLD_RECV : fixes := {| fx_recv := false; fx_publen := true; fx_pinglen := true |}.
+Definition OLD_PUBLEN : fixes := {| fx_recv := true; fx_publen := false; fx_pinglen := true |}.
+Definition OLD_PINGLEN : fixes := {| fx_recv := true; fx_publen := true; fx_pinglen := false |}.
+
+Definition w_topic : list Z := [115;117;112;108;97;47;100;101;118;105;99;101;115;47;120;47;99;104;97;110;110;101;108;115;47;48;47;115;101;116;47;111;110].
+Definition w_publish : list Z := enc_publish 0 0 0 0 w_topic [49].
+Definition w_split : list ev := [Start 105; Seg [32;2;0;0]; Seg (firstn 10 w_publish); Seg (skipn 10 w_publish)].
+Definition w_toplen : list ev := [Start 105; Seg [32;2;0;0]; Seg ([48; 55; 3; 232] ++ repeat 65 53)].
+Definition w_qos3 : list ev := [Start 105; Seg [32;2;0;0]; Seg [54; 6; 0; 1; 97; 0; 5; 120]].
+Definition w_short : list ev := [Start 105; Seg [32;2;0;0]; Seg [48; 3; 0; 1; 97]].
+Definition w_ping : list ev := [Start 105; Ping; Seg [32;2;0;0]; Seg [208; 6; 48; 4; 0; 1; 97; 98]].
+
+Theorem C16_old_code_refuted_thm :
+  (* (a) a PUBLISH split after 10 bytes is lost by the old receive callback, delivered by the repaired one *)
+  rx_of (run OLD_RECV w_split) = [RxErr E_CONTROL_INVALID_FLAGS; RxReconnect] /\
+  rx_of (run FIXED w_split) = [RxMsg 0 0 0 4 33 37 1 (w_topic ++ [49])] /\
+  (* (b) topic length 1000 in a 57-byte packet: callback with slices outside the data, then memmove with a negative size *)
+  rx_of (run OLD_PUBLEN w_toplen) = [RxMsg 0 0 0 4 1000 1004 4294966349 (repeat 65 53); RxFault] /\
+  rx_of (run FIXED w_toplen) = [RxErr E_MALFORMED_RESPONSE; RxReconnect] /\
+  (* QoS 3 is delivered; a well-formed PUBLISH with remaining length 3 is rejected *)
+  rx_of (run OLD_PUBLEN w_qos3) = [RxMsg 0 3 0 4 1 7 1 [97; 120]] /\
+  rx_of (run FIXED w_qos3) = [RxErr E_PUBLISH_FORBIDDEN_QOS; RxReconnect] /\
+  rx_of (run OLD_PUBLEN w_short) = [RxErr E_MALFORMED_RESPONSE; RxReconnect] /\
+  rx_of (run FIXED w_short) = [RxMsg 0 0 0 4 1 5 0 [97]] /\
+  (* (c) the body of a PINGRESP with a non-zero length is parsed as further packets *)
+  rx_of (run OLD_PINGLEN w_ping) = [RxMsg 0 0 0 4 1 5 1 [97; 98]] /\
+  rx_of (run FIXED w_ping) = [RxErr E_MALFORMED_RESPONSE; RxReconnect].
+Proof. vm_compute. repeat split; reflexivity. Qed.
+
+(* ------------------------------------------------------------------------------------------ *)
+(* acknowledgements go out at the end of the same mqtt_sync *)
+Lemma send_all_sent q : forallb (fun e => negb (unsent e)) (fst (send q)) = true.
+Proof.
+  unfold send; cbn [fst]. apply forallb_forall. intros e H. apply in_map_iff in H. destruct H as (x & <- & _).
+  destruct (unsent x) eqn:U; [|rewrite U; reflexivity]. unfold unsent, set_sent in *. cbn. rewrite andb_false_r. reflexivity.
+Qed.
+Theorem C16_acks_sent_thm : forall s, halted (fst (sync FIXED s)) = false ->
+  let d := drain (S (length (buf s))) FIXED (mq s) (buf s) in
+  snd (sync FIXED s) = d_out d ++ map sent_out (filter unsent (d_q d)) /\
+  forallb (fun e => negb (unsent e)) (mq (fst (sync FIXED s))) = true.
+Proof.
+  intros s. cbv zeta. unfold sync. destruct (d_stop (drain (S (length (buf s))) FIXED (mq s) (buf s))).
+  - intros _. pose proof (send_all_sent (d_q (drain (S (length (buf s))) FIXED (mq s) (buf s)))) as A.
+    destruct (send _) as [q' so] eqn:SE. unfold send in SE. inversion SE; subst. cbn [fst snd mq]. auto.
+  - cbn [fst halted]. discriminate.
+  - cbn [fst halted]. discriminate.
 Qed.
